@@ -242,6 +242,27 @@ pub fn run(tier: Tier, seed: u64) -> i32 {
         }
         cases.push(Case::new(&format!("variables named like outputs ({wrap})"), p2, sigs, true, menu.clone(), menu, 12));
     }
+    // the program reads an output, but only in its last row (and in a loop that never runs): a Z or X
+    // the device shows for it on earlier rows is a value to report like any other
+    {
+        let sigs = vec![Sig::inp("A", 4, 0), outs[0].clone(), outs[1].clone()];
+        let p5 = Program {
+            header: vec!["A".into(), "Q".into(), "R".into()],
+            body: {
+                let mut b: Vec<Stmt> = (0..3).map(|j| Stmt::Row(vec![Entry::Lit(j % 2, Radix::Dec), exp(j as usize), exp(j as usize + 3)])).collect();
+                b.push(Stmt::Loop("k".into(), lit(0), vec![Stmt::Row(vec![Entry::Paren(name("R")), Entry::X, Entry::X])]));
+                b.push(Stmt::Row(vec![Entry::Paren(name("Q")), Entry::X, Entry::Z]));
+                b
+            },
+        };
+        let mut menu = vec![];
+        for a in [V::Num(1), V::Num(2), V::Z, V::X] {
+            for b in [V::Num(5), V::Z, V::X] {
+                menu.push(MenuItem::ans(vec![("Q".into(), a), ("R".into(), b)]));
+            }
+        }
+        cases.push(Case::new("an output read only by the last row", p5, sigs, true, menu.clone(), menu, 12));
+    }
     // a declared signal that cannot be evaluated for some answers; the caller carries on: every
     // row that IS returned still reports what the driver returned in the call made for it
     {
